@@ -178,11 +178,20 @@ func (e *Engine) recordViolation(st *State, kind, id string) {
 		}
 		v.Names = append(v.Names, n)
 	}
+	mdl := make(Model, len(st.vars))
+	for i, t := range st.vars {
+		if t.Op == "var" {
+			mdl[t] = vals[i]
+		}
+	}
 	for _, ev := range st.events {
-		avs := e.solver.Values(ev.Args)
 		var ss []string
-		for _, a := range avs {
-			ss = append(ss, fmt.Sprint(a))
+		for _, a := range ev.Args {
+			if x, ok := evalTerm(a, mdl, map[*Term]uint64{}); ok {
+				ss = append(ss, fmt.Sprint(x))
+			} else {
+				ss = append(ss, fmt.Sprint(e.solver.Values([]*Term{a})[0]))
+			}
 		}
 		v.Events = append(v.Events, ev.Kind+"("+strings.Join(ss, ",")+")")
 	}
@@ -245,7 +254,7 @@ func exploreHarness(prog *ssa.Program, fn *ssa.Function, inits []*ssa.Function, 
 	for i := range engines {
 		e := &Engine{prog: prog, solver: NewSolver(opts.SolverBin, opts.TimeoutMs), sh: sh, outcomes: map[string]int{},
 			reach: map[string]int{}, asserts: map[string]int{}, maxSteps: opts.MaxSteps, funcsSeen: map[*ssa.Function]bool{},
-			verbose: opts.Verbose, harness: fn.Name(), tier: opts.Tier, pin: opts.Pin, maxSwitch: opts.MaxSwitch,
+			verbose: opts.Verbose, harness: fn.Name(), harnessPkg: fn.Pkg, tier: opts.Tier, pin: opts.Pin, maxSwitch: opts.MaxSwitch,
 			noAbs: os.Getenv("VERIF_NOABS") != "", audit: os.Getenv("VERIF_AUDIT") != "",
 			noSlice: os.Getenv("VERIF_SLICE") == "", useModel: os.Getenv("VERIF_NOMODEL") == "", assertsToSolver: opts.Tier > 0 || os.Getenv("VERIF_ASSERTS_TO_SOLVER") != "", varMemo: map[*Term]varset{}, varIdx: map[*Term]int{}}
 		if opts.SmtLog != "" && i == 0 {
